@@ -121,7 +121,7 @@ func (pl *lStatePool) New() *lua.LState {
 	}
 
 	getArgs := func(ls *lua.LState) (evalCmd string, args []string) {
-		evalCmd = ls.GetGlobal("EVAL_CMD").String()
+		evalCmd = luaEvalCmd(ls).String()
 
 		// Trying to work with unknown number of args.
 		// When we see empty arg we call it enough.
@@ -394,6 +394,20 @@ func ConvertToJSON(val lua.LValue) string {
 	return `{"err":` + jsonString("Unsupported lua type: "+val.Type().String()) + `}`
 }
 
+// The variant (eval, evalro, evalna, ...) the calls of the running script are
+// executed as is kept in the interpreter's registry, which scripts cannot
+// reach. The EVAL_CMD global is informational only: a script that overwrites
+// it does not change how its calls are run.
+const luaEvalCmdKey = "tile38.evalcmd"
+
+func luaSetEvalCmd(ls *lua.LState, val lua.LValue) {
+	ls.Get(lua.RegistryIndex).(*lua.LTable).RawSetString(luaEvalCmdKey, val)
+}
+
+func luaEvalCmd(ls *lua.LState) lua.LValue {
+	return ls.Get(lua.RegistryIndex).(*lua.LTable).RawGetString(luaEvalCmdKey)
+}
+
 func luaSetRawGlobals(ls *lua.LState, tbl map[string]lua.LValue) {
 	gt := ls.Get(lua.GlobalsIndex).(*lua.LTable)
 	for key, val := range tbl {
@@ -481,6 +495,8 @@ func (s *Server) cmdEvalUnified(scriptIsSha bool, msg *Message) (res resp.Value,
 			"DEADLINE": luaDeadline,
 			"EVAL_CMD": lua.LString(msg.Command()),
 		})
+	luaSetEvalCmd(luaState, lua.LString(msg.Command()))
+	defer luaSetEvalCmd(luaState, lua.LNil)
 	defer luaSetRawGlobals(
 		luaState, map[string]lua.LValue{
 			"KEYS":     lua.LNil,
